@@ -419,4 +419,47 @@ def rangeByScore (z : ZS) (lo hi : Option Bound) (lim : Option (Int × Nat)) : O
       else some ((((iter z.sl).filter (fun p => inRange lo hi p.2)).drop off.toNat).take cnt)
   | _, _ => none
 
+/-! ## `execute_zadd` / `execute_zrem` of `sorted_set_ops.rs`: the loops over the structure -/
+
+/-- the slow path of `execute_zadd` for one `(score, member)`: (set, added, changed) -/
+def zaddPair (lv : LevelGen) (f : ZFlags) (z : ZS) (m : BS) (sc : Score) : Option (ZS × Nat × Nat) :=
+  match score z m with
+  | some cs =>
+    if f.nx then some (z, 0, 0)
+    else if f.gt && (sc.le cs) then some (z, 0, 0)
+    else if f.lt && (cs.le sc) then some (z, 0, 0)
+    else
+      match add lv z m sc with
+      | none => none
+      | some (z', wasAdded) =>
+        some (z', if wasAdded then 1 else 0, if wasAdded then 1 else if cs ≠ sc then 1 else 0)
+  | none =>
+    if f.xx then some (z, 0, 0)
+    else
+      match add lv z m sc with
+      | none => none
+      | some (z', wasAdded) => some (z', if wasAdded then 1 else 0, 1)
+
+/-- `for (score, member) in pairs { … }`: (set, added, changed) -/
+def zaddLoop (lv : LevelGen) (f : ZFlags) : ZS → List (BS × Score) → Option (ZS × Nat × Nat)
+  | z, [] => some (z, 0, 0)
+  | z, (m, sc) :: ps =>
+    match zaddPair lv f z m sc with
+    | none => none
+    | some (z1, a1, c1) =>
+      match zaddLoop lv f z1 ps with
+      | none => none
+      | some (z2, a2, c2) => some (z2, a2 + a1, c2 + c1)
+
+/-- `for member in members { if zs.remove(member) { removed += 1 } }` -/
+def zremLoop : ZS → List BS → Option (ZS × Nat)
+  | z, [] => some (z, 0)
+  | z, m :: ms =>
+    match remove z m with
+    | none => none
+    | some (z1, b) =>
+      match zremLoop z1 ms with
+      | none => none
+      | some (z2, n) => some (z2, n + (if b then 1 else 0))
+
 end RedisVerif.SkipList
